@@ -638,3 +638,325 @@ Theorem C15_error_types_from_source :
   Proofs.ErrorTypesTie.accessor "RemoteUserLoginValidateError" "Error" = Some ("message"%string, "string"%string).
 Proof. exact Proofs.ErrorTypesTie.error_types_from_source. Qed.
 Print Assumptions C15_error_types_from_source.
+
+(* ---------- which lines are unparsable: go-libaudit's line parser inside the model ----------
+   C15_parse_first takes the parser as an oracle.  Model/Auparse.v IS that parser (auparse.ParseLogLine of the
+   pinned go-libaudit, header level: strings.Index, the slices, GetAuditMessageType with its UNKNOWN[n] fallback,
+   strings.TrimSpace, parseAuditHeader over exact strconv.ParseInt / ParseUint), tied to the real library on every
+   run by the auparse stage (Model/AuparseCheck.v).  [type_of] is the library's message-type table: a parameter,
+   nothing is assumed about it.  Outcomes: POk m | PErrHeader | PErrType | PPanic (never: C15_parse_never_panics)
+   | PUnmodelled (exactly when strings.ToUpper / strings.TrimSpace leave ASCII: C15_parse_unmodelled_iff). *)
+From Coq Require Import Ascii List.
+From AM Require Import Lib.Bytes Lib.GoStrings Model.Auparse Proofs.AuparseNum Proofs.AuparseLemmas.
+
+(* EXACTLY the accepted lines: the FIRST "msg=" of the line is at an index i >= 6; the bytes [5, i-1) are a type
+   name (the first five bytes are never looked at, the byte at i-1 neither); the text behind that "msg=", ASCII
+   white space trimmed at both ends, is raw = a "(" s1 "." s2 ":" s3 ")" rest  with no '(' in a, no '.' in s1, no
+   ':' in s2, no ')' in s3 (each delimiter is the first one after the previous), s1 and s2 accepted by
+   ParseInt(.,10,64), s3 by ParseUint(.,10,32); the message is then (type, s1, s2, s3, offset of the first ':' or
+   ' ' from the ')' on, raw). *)
+Theorem C15_parse_accepts_iff : forall (type_of : str -> option N) (l : str) (m : amsg),
+  parse_log_line type_of l = POk m <->
+  exists i t sec msec sq e raw,
+    go_index l msg_token = Some i /\ 6 <= i /\
+    get_type type_of (type_name l i) = TyOk t /\
+    trim_space (msg_text l i) = Some raw /\
+    header_wf raw sec msec sq e /\
+    m = mkMsg t sec msec sq (index_of_message (skipn e raw)) raw.
+Proof. exact parse_log_line_ok_iff. Qed.
+Print Assumptions C15_parse_accepts_iff.
+
+(* the ingredients of that characterisation, each exact *)
+(* strings.Index: the offset of the first occurrence *)
+Theorem C15_parse_index_iff : forall (p s : str) (i : nat),
+  go_index s p = Some i <->
+  has_prefix p (skipn i s) = true /\ forall j, j < i -> has_prefix p (skipn j s) = false.
+Proof. exact go_index_first_at. Qed.
+Print Assumptions C15_parse_index_iff.
+
+(* the type names: ASCII; upper-cased, in the table, or of the form  <no '['> "[" n "]" <anything>  with n
+   accepted by ParseUint(.,10,16) (so "UNKNOWN[1329]", "unknown[1329]", "[1329]" and "x[1329]y" all name type 1329) *)
+Theorem C15_parse_type_iff : forall (type_of : str -> option N) (name : str) (t : N),
+  get_type type_of name = TyOk t <->
+  existsb non_ascii name = false /\
+  (type_of (to_upper_ascii name) = Some t \/
+   type_of (to_upper_ascii name) = None /\
+   exists a n b, to_upper_ascii name = a ++ c_lbrack :: n ++ c_rbrack :: b /\
+                 ~ In c_lbrack a /\ ~ In c_rbrack n /\ parse_uint 16 n = NumOk t).
+Proof. exact get_type_ok_iff. Qed.
+Print Assumptions C15_parse_type_iff.
+
+(* the numbers: ParseUint(s,10,bits) accepts exactly the non-empty strings of ASCII digits (leading zeros allowed;
+   no sign, underscore, blank, hex) whose value is below 2^bits; ParseInt(s,10,bits) exactly one optional '+' or
+   '-' followed by such digits with the signed value in [-2^(bits-1), 2^(bits-1)) *)
+Theorem C15_parse_uint_iff : forall (bits : N) (s : str) (v : N), (bits <= 64)%N ->
+  (parse_uint bits s = NumOk v <-> s <> [] /\ all_digits s = true /\ v = dec_val s /\ (v < 2 ^ bits)%N).
+Proof. exact parse_uint_ok_iff. Qed.
+Print Assumptions C15_parse_uint_iff.
+
+Theorem C15_parse_int_iff : forall (bits : N) (s : str) (z : Z), (1 <= bits <= 64)%N ->
+  (parse_int bits s = NumOk z <->
+   exists neg ds, int_shape s neg ds /\ ds <> [] /\ all_digits ds = true /\
+                  z = (if neg then - Z.of_N (dec_val ds) else Z.of_N (dec_val ds))%Z /\
+                  (- Z.of_N (2 ^ (bits - 1)) <= z < Z.of_N (2 ^ (bits - 1)))%Z).
+Proof. exact parse_int_ok_iff. Qed.
+Print Assumptions C15_parse_int_iff.
+
+(* strings.TrimSpace inside the modelled domain: t is s without its leading and trailing ASCII white space, and t
+   is empty or begins and ends with ASCII bytes that are not white space *)
+Theorem C15_parse_trim_iff : forall (s t : str),
+  trim_space s = Some t <->
+  exists ws1 ws2, s = ws1 ++ t ++ ws2 /\ all_space ws1 = true /\ all_space ws2 = true /\ trimmed_text t.
+Proof. exact trim_space_some_iff. Qed.
+Print Assumptions C15_parse_trim_iff.
+
+(* ... and in one equation, with the boundary of the modelled domain: [strip_ws s] is s without its leading and
+   trailing ASCII white space; TrimSpace returns it unless it begins or ends with a byte >= 0x80 - exactly then the
+   real function decodes runes (unicode.IsSpace) and the model answers None (PUnmodelled) *)
+Theorem C15_parse_trim_domain : forall s : str,
+  trim_space s = match strip_ws s with
+                 | [] => Some []
+                 | c :: r => if non_ascii c || non_ascii (last r c) then None else Some (c :: r)
+                 end.
+Proof. exact trim_space_strip. Qed.
+Print Assumptions C15_parse_trim_domain.
+
+(* the rejected lines, by error: errInvalidAuditHeader - no "msg=", or the first one before index 6, or the type
+   is fine and the trimmed text has no well-formed header; errInvalidAuditMessageTypName - the type position holds
+   no type name *)
+Theorem C15_parse_err_header_iff : forall (type_of : str -> option N) (l : str),
+  parse_log_line type_of l = PErrHeader <->
+  go_index l msg_token = None \/
+  (exists i, go_index l msg_token = Some i /\ i < 6) \/
+  (exists i t raw, go_index l msg_token = Some i /\ 6 <= i /\ get_type type_of (type_name l i) = TyOk t /\
+                   trim_space (msg_text l i) = Some raw /\ forall sec msec sq e, ~ header_wf raw sec msec sq e).
+Proof. exact parse_log_line_err_header_iff. Qed.
+Print Assumptions C15_parse_err_header_iff.
+
+Theorem C15_parse_err_type_iff : forall (type_of : str -> option N) (l : str),
+  parse_log_line type_of l = PErrType <->
+  exists i, go_index l msg_token = Some i /\ 6 <= i /\ get_type type_of (type_name l i) = TyErr.
+Proof. exact parse_log_line_err_type_iff. Qed.
+Print Assumptions C15_parse_err_type_iff.
+
+Theorem C15_parse_unmodelled_iff : forall (type_of : str -> option N) (l : str),
+  parse_log_line type_of l = PUnmodelled <->
+  exists i, go_index l msg_token = Some i /\ 6 <= i /\
+    (existsb non_ascii (type_name l i) = true \/
+     exists t, get_type type_of (type_name l i) = TyOk t /\ trim_space (msg_text l i) = None).
+Proof. exact parse_log_line_unmodelled_iff. Qed.
+Print Assumptions C15_parse_unmodelled_iff.
+
+Theorem C15_parse_never_panics : forall (type_of : str -> option N) (l : str), parse_log_line type_of l <> PPanic.
+Proof. exact parse_log_line_never_panics. Qed.
+Print Assumptions C15_parse_never_panics.
+
+(* the model follows the source slice by slice (Model/Auparse.v: every slice expression can panic); it equals the
+   slice-free form the characterisations are proved about, for every line *)
+Theorem C15_parse_model_is_clean : forall (type_of : str -> option N) (l : str),
+  parse_log_line type_of l = parse_log_line_clean type_of l.
+Proof. exact parse_log_line_is_clean. Qed.
+Print Assumptions C15_parse_model_is_clean.
+
+(* C15_parse_first with this parser as its oracle ([parse_opt]: Some m for POk m, None for an error), for streams
+   inside the modelled domain: parseAuditLogs stops at the first non-empty line that ParseLogLine rejects with one
+   of its two errors - a line that is NOT of the form of C15_parse_accepts_iff - and has pushed the message of
+   every earlier non-empty line; if there is no such line every non-empty line is pushed. *)
+Theorem C15_parse_stops_at : forall (type_of : str -> option N) (ls : list str),
+  (forall l, In l ls -> parse_log_line type_of l <> PUnmodelled) ->
+  match snd (parse_loop str amsg audit_is_empty (parse_opt type_of) ls) with
+  | Some l => exists pre post, ls = pre ++ l :: post /\ l <> [] /\
+                (parse_log_line type_of l = PErrHeader \/ parse_log_line type_of l = PErrType) /\
+                (forall x, In x pre -> x <> [] -> exists m, parse_log_line type_of x = POk m) /\
+                fst (parse_loop str amsg audit_is_empty (parse_opt type_of) ls)
+                = pushes str amsg audit_is_empty (parse_opt type_of) pre
+  | None => (forall x, In x ls -> x <> [] -> exists m, parse_log_line type_of x = POk m) /\
+            fst (parse_loop str amsg audit_is_empty (parse_opt type_of) ls)
+            = pushes str amsg audit_is_empty (parse_opt type_of) ls
+  end.
+Proof. exact parse_stops_at. Qed.
+Print Assumptions C15_parse_stops_at.
+
+(* FIELD EXTRACTION on well-formed lines.  P: any five bytes (the parser skips them unchecked); T: a type name;
+   lead, trail: ASCII white space (the trailing newline the ingester leaves on the line is a [trail]); s1, s2:
+   anything ParseInt(.,10,64) accepts (digits with an optional sign, leading zeros allowed), s3: anything
+   ParseUint(.,10,32) accepts (digits, leading zeros allowed, NO sign); b: the rest of the record, empty or ending
+   in an ASCII byte that is not white space (white space at its end would be trimmed away; a byte >= 0x80 there is
+   outside the model).  Hypothesis on P and T: in  P T " msg="  the final "msg=" is the first one.  Then the line
+   parses to exactly (type of T, s1, s2, s3), offset = index of the first ':' or ' ' in  ")" b  (1 for auditd's
+   "): ..."), RawData = the text from "audit(" to the end of b: without lead and trail. *)
+Theorem C15_parse_well_formed :
+  forall (type_of : str -> option N) P T t lead s1 s2 s3 sec msec sq b trail,
+  length P = 5 ->
+  go_index (P ++ T ++ c_sp :: msg_token) msg_token = Some (6 + length T) ->
+  get_type type_of T = TyOk t ->
+  all_space lead = true -> all_space trail = true ->
+  parse_int 64 s1 = NumOk sec -> parse_int 64 s2 = NumOk msec -> parse_uint 32 s3 = NumOk sq ->
+  clean_end b ->
+  parse_log_line type_of (P ++ T ++ c_sp :: msg_token ++ lead ++ header_text s1 s2 s3 ++ b ++ trail)
+  = POk (mkMsg t sec msec sq (index_of_message (c_rparen :: b)) (header_text s1 s2 s3 ++ b)).
+Proof. exact wf_line_parses. Qed.
+Print Assumptions C15_parse_well_formed.
+
+(* ... as auditd writes it: "type=" and a type name without '=' (a T holding "msg=" cannot occur then) *)
+Theorem C15_parse_well_formed_type :
+  forall (type_of : str -> option N) T t lead s1 s2 s3 sec msec sq b trail,
+  ~ In c_eq T -> get_type type_of T = TyOk t ->
+  all_space lead = true -> all_space trail = true ->
+  parse_int 64 s1 = NumOk sec -> parse_int 64 s2 = NumOk msec -> parse_uint 32 s3 = NumOk sq ->
+  clean_end b ->
+  parse_log_line type_of (type_token ++ T ++ c_sp :: msg_token ++ lead ++ header_text s1 s2 s3 ++ b ++ trail)
+  = POk (mkMsg t sec msec sq (index_of_message (c_rparen :: b)) (header_text s1 s2 s3 ++ b)).
+Proof. exact wf_type_line_parses. Qed.
+Print Assumptions C15_parse_well_formed_type.
+
+(* ... with the numbers printed as auditd prints them ([dec] = plain decimal, [dec3] = zero-padded to three digits,
+   Proofs/AuparseNum.v: both produce non-empty digit strings of the right value) and the newline the ingester leaves:
+   for EVERY type name without '=', all seconds / milliseconds below 2^63, every sequence number below 2^32 and every
+   body that is empty or ends in a non-white ASCII byte, the parse returns exactly those values, and RawData is the
+   text from "audit(" on WITHOUT the trailing newline *)
+Theorem C15_parse_well_formed_decimal :
+  forall (type_of : str -> option N) T t (sec msec sq : N) b,
+  ~ In c_eq T -> get_type type_of T = TyOk t ->
+  (sec < 2 ^ 63)%N -> (msec < 2 ^ 63)%N -> (sq < 2 ^ 32)%N -> clean_end b ->
+  parse_log_line type_of (type_token ++ T ++ c_sp :: msg_token ++ header_text (dec sec) (dec3 msec) (dec sq) ++ b ++ ["010"%char])
+  = POk (mkMsg t (Z.of_N sec) (Z.of_N msec) sq (index_of_message (c_rparen :: b))
+               (header_text (dec sec) (dec3 msec) (dec sq) ++ b)).
+Proof. exact wf_decimal_line_parses. Qed.
+Print Assumptions C15_parse_well_formed_decimal.
+
+Theorem C15_parse_decimal_printer : forall n : N,
+  (dec n <> [] /\ all_digits (dec n) = true /\ dec_val (dec n) = n) /\
+  (dec3 n <> [] /\ all_digits (dec3 n) = true /\ dec_val (dec3 n) = n).
+Proof. exact (fun n => conj (dec_spec n) (dec3_spec n)). Qed.
+Print Assumptions C15_parse_decimal_printer.
+
+(* the numbers as printed in plain decimal: digits ds (leading zeros or not) parse to their decimal value when it
+   is in range; "+" ds the same for the int64 fields; "-" ds to the negative value; leading zeros never matter *)
+Theorem C15_parse_decimal_fields : forall ds : str, ds <> [] -> all_digits ds = true ->
+  ((dec_val ds < 2 ^ 63)%N -> parse_int 64 ds = NumOk (Z.of_N (dec_val ds)) /\
+                              parse_int 64 (c_plus :: ds) = NumOk (Z.of_N (dec_val ds))) /\
+  ((dec_val ds <= 2 ^ 63)%N -> parse_int 64 (c_minus :: ds) = NumOk (- Z.of_N (dec_val ds))%Z) /\
+  ((dec_val ds < 2 ^ 32)%N -> parse_uint 32 ds = NumOk (dec_val ds)) /\
+  (forall k, dec_val (repeat "0"%char k ++ ds) = dec_val ds).
+Proof. exact decimal_fields. Qed.
+Print Assumptions C15_parse_decimal_fields.
+
+(* the time stamp: a millisecond field 0..999 gives the time  sec s + msec ms  exactly (other values carry into
+   the seconds or wrap on int64 as time.Unix does: [time_unix], compared with the real time.Unix by the auparse stage) *)
+Theorem C15_parse_time_plain : forall sec msec : Z, (0 <= msec < 1000)%Z ->
+  time_unix sec msec = (sec, (msec * 1000000)%Z).
+Proof. exact time_unix_plain. Qed.
+Print Assumptions C15_parse_time_plain.
+
+(* ranges of what is pushed to the reassembler: Sequence is a uint32 - the hypothesis (mseq m < two32) of the
+   reassembler tie above holds of every message the parser yields -, the two time fields are int64, the offset is
+   >= -1, the type is a uint16 when the table's entries are *)
+Theorem C15_parse_ranges : forall (type_of : str -> option N) (l : str) (m : amsg),
+  parse_log_line type_of l = POk m ->
+  (a_seq m < 4294967296)%N /\
+  (- 9223372036854775808 <= a_sec m < 9223372036854775808)%Z /\
+  (- 9223372036854775808 <= a_msec m < 9223372036854775808)%Z /\
+  (-1 <= a_offset m)%Z /\
+  ((forall n t, type_of n = Some t -> (t < 65536)%N) -> (a_typ m < 65536)%N).
+Proof. exact parse_log_line_ranges. Qed.
+Print Assumptions C15_parse_ranges.
+
+Theorem C15_parse_seq_u32 : forall (type_of : str -> option N) (l : str) (m : amsg),
+  parse_opt type_of l = Some m -> (a_seq m < Model.ReassemblerIR.two32)%N.
+Proof. exact pushed_seq_u32. Qed.
+Print Assumptions C15_parse_seq_u32.
+
+(* ---------- concrete lines (a three-entry table stands in for the library's) ---------- *)
+Definition c15_tbl (n : str) : option N :=
+  if seqb n (s2l "SYSCALL") then Some 1300%N else if seqb n (s2l "USER_CMD") then Some 1123%N
+  else if seqb n (s2l "EOE") then Some 1320%N else None.
+
+(* the hypotheses of C15_parse_well_formed_type are satisfiable, and the theorem's right-hand side is what runs *)
+Example C15_parse_example_well_formed :
+  let T := s2l "SYSCALL" in let b := s2l ": arch=c000003e syscall=59 success=yes exit=0" in
+  ~ In c_eq T /\ get_type c15_tbl T = TyOk 1300%N /\ clean_end b /\
+  parse_int 64 (s2l "1690000000") = NumOk 1690000000%Z /\ parse_int 64 (s2l "007") = NumOk 7%Z /\
+  parse_uint 32 (s2l "4294967295") = NumOk 4294967295%N /\
+  parse_log_line c15_tbl (s2l "type=SYSCALL msg=audit(1690000000.007:4294967295): arch=c000003e syscall=59 success=yes exit=0" ++ ["010"%char])
+  = POk (mkMsg 1300 1690000000 7 4294967295 1 (s2l "audit(1690000000.007:4294967295): arch=c000003e syscall=59 success=yes exit=0")).
+Proof.
+  vm_compute. repeat split; try reflexivity.
+  intros H. repeat (destruct H as [H|H]; [discriminate H|]). exact H.
+Qed.
+
+Example C15_parse_example_decimal :
+  type_token ++ s2l "SYSCALL" ++ c_sp :: msg_token ++ header_text (dec 1690000000) (dec3 7) (dec 42) ++ s2l ": a=1" ++ ["010"%char]
+  = s2l "type=SYSCALL msg=audit(1690000000.007:42): a=1" ++ ["010"%char] /\
+  parse_log_line c15_tbl (s2l "type=SYSCALL msg=audit(1690000000.007:42): a=1" ++ ["010"%char])
+  = POk (mkMsg 1300 1690000000 7 42 1 (s2l "audit(1690000000.007:42): a=1")).
+Proof. vm_compute. split; reflexivity. Qed.
+
+(* SURPRISING inputs, as the real parser treats them (each also among the harness' generated classes) *)
+(* 1. the first five bytes are skipped unchecked: a line need not begin with "type=" *)
+Example C15_parse_example_no_type_prefix :
+  parse_log_line c15_tbl (s2l "12345SYSCALL msg=audit(1.002:3): x") = POk (mkMsg 1300 1 2 3 1 (s2l "audit(1.002:3): x")) /\
+  parse_log_line c15_tbl (s2l "node=SYSCALL msg=audit(1.002:3): x") = POk (mkMsg 1300 1 2 3 1 (s2l "audit(1.002:3): x")).
+Proof. vm_compute. split; reflexivity. Qed.
+
+(* 2. "msg=" inside the type position: the FIRST "msg=" is the one that counts; a doubled "msg=" is accepted and
+   becomes part of RawData *)
+Example C15_parse_example_msg_in_type_position :
+  parse_log_line c15_tbl (s2l "type=A msg= msg=audit(1.002:3): x") = PErrType /\
+  parse_log_line c15_tbl (s2l "type=msg=audit(1.002:3): x") = PErrHeader /\
+  parse_log_line c15_tbl (s2l "type=EOE msg=msg=audit(1.002:3): x") = POk (mkMsg 1320 1 2 3 1 (s2l "msg=audit(1.002:3): x")).
+Proof. vm_compute. repeat split; reflexivity. Qed.
+
+(* 3. a second '(' before the real header: the FIRST '(' opens the header, wherever it is *)
+Example C15_parse_example_second_paren :
+  parse_log_line c15_tbl (s2l "type=EOE msg=(audit(1.002:3): x") = PErrHeader /\
+  parse_log_line c15_tbl (s2l "type=EOE msg=x(1.002:3) audit(4.005:6): y")
+  = POk (mkMsg 1320 1 2 3 1 (s2l "x(1.002:3) audit(4.005:6): y")).
+Proof. vm_compute. split; reflexivity. Qed.
+
+(* 4. ENRICHED format: the 0x1d separator and the upper-case trailer are simply part of RawData *)
+Example C15_parse_example_enriched :
+  parse_log_line c15_tbl (s2l "type=USER_CMD msg=audit(1.002:3): pid=1 res=success" ++ "029"%char :: s2l "UID=""root""" ++ ["010"%char])
+  = POk (mkMsg 1123 1 2 3 1 (s2l "audit(1.002:3): pid=1 res=success" ++ "029"%char :: s2l "UID=""root""")).
+Proof. vm_compute. reflexivity. Qed.
+
+(* 5. numbers: signs and leading zeros are accepted on the two time fields, a sign is NOT accepted on the
+   sequence; underscores, hex, blanks are rejected; the limits are exact; a millisecond field that is not three
+   digits is still read as milliseconds (".7" is 7 ms, ".1234" carries one second) *)
+Example C15_parse_example_numbers :
+  parse_log_line c15_tbl (s2l "type=EOE msg=audit(-5.+07:0003):") = POk (mkMsg 1320 (-5) 7 3 1 (s2l "audit(-5.+07:0003):")) /\
+  parse_log_line c15_tbl (s2l "type=EOE msg=audit(1.002:+3):") = PErrHeader /\
+  parse_log_line c15_tbl (s2l "type=EOE msg=audit(1_0.002:3):") = PErrHeader /\
+  parse_log_line c15_tbl (s2l "type=EOE msg=audit(0x10.002:3):") = PErrHeader /\
+  parse_log_line c15_tbl (s2l "type=EOE msg=audit(1.002: 3):") = PErrHeader /\
+  parse_log_line c15_tbl (s2l "type=EOE msg=audit(1.002:4294967295):") = POk (mkMsg 1320 1 2 4294967295 1 (s2l "audit(1.002:4294967295):")) /\
+  parse_log_line c15_tbl (s2l "type=EOE msg=audit(1.002:4294967296):") = PErrHeader /\
+  parse_log_line c15_tbl (s2l "type=EOE msg=audit(9223372036854775807.002:3):") = POk (mkMsg 1320 9223372036854775807 2 3 1 (s2l "audit(9223372036854775807.002:3):")) /\
+  parse_log_line c15_tbl (s2l "type=EOE msg=audit(9223372036854775808.002:3):") = PErrHeader /\
+  parse_log_line c15_tbl (s2l "type=EOE msg=audit(-9223372036854775808.002:3):") = POk (mkMsg 1320 (-9223372036854775808) 2 3 1 (s2l "audit(-9223372036854775808.002:3):")) /\
+  time_unix 10 7 = (10, 7000000)%Z /\ time_unix 10 1234 = (11, 234000000)%Z /\ time_unix 10 (-1) = (9, 999000000)%Z /\
+  parse_uint 64 (s2l "18446744073709551615") = NumOk 18446744073709551615%N /\
+  parse_uint 64 (s2l "18446744073709551616") = NumRange /\ parse_uint 64 (s2l "18446744073709551616x") = NumRange /\
+  parse_uint 64 (s2l "1x8446744073709551616") = NumSyntax /\ parse_int 64 (s2l "+") = NumSyntax /\ parse_int 64 (s2l "-0") = NumOk 0%Z.
+Proof. vm_compute. repeat split; reflexivity. Qed.
+
+(* 6. type names: case is ignored, and any name with a "[n]" in it, n < 65536, is a type *)
+Example C15_parse_example_types :
+  parse_log_line c15_tbl (s2l "type=syscall msg=audit(1.002:3):") = POk (mkMsg 1300 1 2 3 1 (s2l "audit(1.002:3):")) /\
+  parse_log_line c15_tbl (s2l "type=UNKNOWN[1329] msg=audit(1.002:3):") = POk (mkMsg 1329 1 2 3 1 (s2l "audit(1.002:3):")) /\
+  parse_log_line c15_tbl (s2l "type=x[7]y msg=audit(1.002:3):") = POk (mkMsg 7 1 2 3 1 (s2l "audit(1.002:3):")) /\
+  parse_log_line c15_tbl (s2l "type=UNKNOWN[65536] msg=audit(1.002:3):") = PErrType /\
+  parse_log_line c15_tbl (s2l "type=UNKNOWN[+1] msg=audit(1.002:3):") = PErrType /\
+  parse_log_line c15_tbl (s2l "type=NOPE msg=audit(1.002:3):") = PErrType /\
+  parse_log_line c15_tbl (s2l "type= msg=audit(1.002:3):") = PErrType /\
+  parse_log_line c15_tbl (s2l "type=msg=audit(1.002:3):") = PErrHeader.
+Proof. vm_compute. repeat split; reflexivity. Qed.
+
+(* 7. a stream: the blank line (a lone newline, as the ingester delivers an empty log line) stops the processor;
+   the empty string does not *)
+Example C15_parse_example_stream :
+  let good := s2l "type=EOE msg=audit(1.002:3): " ++ ["010"%char] in
+  snd (parse_loop str amsg audit_is_empty (parse_opt c15_tbl) [good; []; good; ["010"%char]; good]) = Some ["010"%char] /\
+  length (fst (parse_loop str amsg audit_is_empty (parse_opt c15_tbl) [good; []; good; ["010"%char]; good])) = 2 /\
+  snd (parse_loop str amsg audit_is_empty (parse_opt c15_tbl) [good; []; good]) = None.
+Proof. vm_compute. repeat split; reflexivity. Qed.
